@@ -333,8 +333,11 @@ def build_depfuncs(dimspec, bounds=False):
             dep = DependenceFunction(fn)
             dep.parameters = dict(zip(list(dep.parameters.keys()), v["coef"]))
         out[name] = dep
-    # keep the declaration order of the spec
-    return {n: out[n] for n, v in dimspec["params"].items() if isinstance(v, dict)}
+    # keep the declaration order of the spec (or its reverse: the order of the parameters dict must not matter)
+    names = [n for n, v in dimspec["params"].items() if isinstance(v, dict)]
+    if dimspec.get("dict_order") == "reversed":
+        names = names[::-1]
+    return {n: out[n] for n in names}
 
 
 def build_dist(dimspec):
@@ -477,6 +480,8 @@ def gen_dim(rng, fam, cond, ref_so_far, table=RANGE, allow_hostile=True, p_fixed
             params["alpha"] = {"shape": "alpha3", "coef": [a0, (hi - a0) / xs**c * float(rng.uniform(0.2, 1.0)), c], "chain": "beta"}
         params = {n: params[n] for n in names}  # declaration order = the family's parameter order
         dim = {"fam": fam, "cond": cond, "params": params}
+        if rng.random() < 0.4:
+            dim["dict_order"] = "reversed"
         if _dim_admissible(dim, xlo, xhi):
             return dim
     # fall back: everything a vector constant
